@@ -74,6 +74,14 @@ def items(tier: str, seed: int) -> List[dict]:
     ta = scen.mk_spec([scen.board(seed + 65, 'doubled', D4[(seed + 2) % 4], 'Both')])
     ta['second_table'] = scen.mk_spec([scen.board(seed + 66, 'third', D4[(seed + 3) % 4], 'NS'), scen.board(seed + 67, 'passout', 'W', 'EW')], teams={'NS': 'Gamma', 'EW': 'Delta'})
     its.append(dict(spec=ta, d=0, priority=True))
+    # 4f. turned boards: the same dealer-relative auction, deal and play on every board of a session, so that the boards differ only
+    # in who declares (same final contract, same doubling, same table vulnerability, same trick count; declarers of both sides)
+    turned = list(itertools.product((('open1C', 0), ('doubled', 1), ('slam', 2), ('second', 3), ('partner_first', 1)), ('NS', 'EW')))
+    if tier == 'quick':
+        turned = [t for k, t in enumerate(turned) if (k + seed) % 2 == 0]
+    for (a, r0), v in turned:
+        bs = [scen.board(0, a, D4[(j + seed) % 4], v, deal=f'onesuit:{(r0 - (j + seed)) % 4}', policy='lowest_legal', bid=f'turned {j}') for j in range(4)]
+        its.append(dict(spec=scen.mk_spec(bs), d=0))
     # 5. schedules
     p1 = scen.mk_spec([scen.board(seed, 'passout', D4[seed % 4], V4[seed % 4])])
     q1 = scen.mk_spec([scen.board(seed + 1, 'doubled', D4[(seed + 1) % 4], V4[(seed + 1) % 4], policy='lowest_held')])
